@@ -78,6 +78,8 @@ func C11(c *Ctx) {
 	c11HostContexts(c)
 	c.R.Rule("C11-R11", "E7", "mcrew stores the routing of a stopped action: the store's write path does not consult the (by then ended) context", 1)
 	c11StoreIgnoresCtx(c, "C11-R11")
+	c.shareRule("C04", "C04-R17", "C11-R12", "a guard that times out fails the step: its error is handed on, not skipped")
+	c.shareRule("C04", "C04-R18", "C11-R13", "the engine itself never consults the context: a timeout is reported by the execution that was stopped, and the call returns only when that execution has")
 	c.shareRule("C04", "C04-R11", "C11-R10", "a timeout is routed like any other action error: after a failed action only the spec's routing settings choose the exit of Step")
 	c.R.Rule("C11-R9", "E3", "an execution whose context has ended reports the timeout, whatever the runtime returned", 1)
 	exec := c.fn("interpreters/ecmascript", "Interpreter", "Exec")
